@@ -304,6 +304,14 @@ def check_header(case, stats):
                     hdr, [(x["keyword"], x["keywordType"]) for x in st0], dflt, (k0, t0)))
         if r2[0] != "ok" or r2[1]["feature"]["language"] != dflt:
             raise Violation(case, "after a parse with header %r the same matcher no longer uses its configured default %r: %r" % (hdr, dflt, r2[1] if r2[0] != "ok" else r2[1]["feature"]["language"]))
+        # ... and the same when the next document arrives as a scanner object from which the caller has already taken a leading line
+        sc = gh.TokenScanner("# taken by the caller\n" + D0["feature"][0] + ": g\n " + D0["scenario"][0] + ": s\n  " + D0["given"][-1] + "x\n")
+        sc.read()
+        gh.parse(text, parser=parser, matcher=matcher)
+        r3 = gh.parse(sc, parser=parser, matcher=matcher)
+        if r3[0] != "ok" or r3[1]["feature"]["language"] != dflt:
+            raise Violation(case, "after a parse with header %r the same matcher, given a scanner object the caller already read a line from, does not use its configured default %r: %r" % (
+                hdr, dflt, r3[1][:2] if r3[0] != "ok" else r3[1]["feature"]["language"]))
 
 
 def unit_header(a):
